@@ -2,6 +2,7 @@ pub mod units_list {
     include!(concat!(env!("OUT_DIR"), "/unit_statics.rs"));
 }
 pub mod gen;
+pub mod isolate;
 pub mod props;
 pub mod refimpl;
 pub mod runner;
